@@ -231,3 +231,20 @@ claim('C03', 'exploration',
       'nesting depth (stack exhaustion).',
       'runtime monitoring: mutation-based hostile workload with twin-run differential oracles under ASan/UBSan and a watchdog',
       'DESIGN.md section 4, C03')
+
+claim('C17', 'fault_enumeration',
+      'For every public function that can allocate (103 operations over 68 functions: each argument shape of the CIF, '
+      'container, loop, packet-iterator, packet, value, parse, write and utility calls) the single call is executed on a '
+      'fresh deterministic fixture with the k-th allocation failing, for every k up to the count of an unfaulted twin '
+      '(quick: the first 60 and 10 evenly spaced later ones), separately for the library / hash-table allocator '
+      '(link-time wrapped malloc family) and the storage engine (SQLITE_CONFIG_MALLOC).  Judged per injection: no crash or '
+      'sanitizer report; result CIF_MEMORY_ERROR / CIF_ERROR / NULL, or the normal result with the normal outputs and '
+      'state; after a failure the managed CIF equals the call-skipped twin, caller-owned values and packets are '
+      'well-formed and releasable, no transaction is left open, the same call repeated without fault gives the normal '
+      'result, outputs and final state; teardown leaves the allocation ledger, handle counters and SQLite block count '
+      'balanced.  A crash inside an operation resumes the enumeration behind the crashing k.',
+      'ICU allocations are not faulted.  A failed call may alter (not invalidate) a value object the caller owns.  '
+      'cif_parse into an existing CIF may leave partial content.  Known findings: ignored ROLLBACK results and the '
+      'first retry after a failed statement step (storage-engine layer).',
+      'runtime monitoring: exhaustive single-fault injection at the allocator boundary with unfaulted twin runs as oracle, under ASan/UBSan and an allocation ledger',
+      'DESIGN.md section 4, C17')
